@@ -4,7 +4,7 @@ From Verif Require Import Base.Prelude Base.StrUtil Base.Index Base.NdArr Model.
   Model.MapDenote Model.SymBody Model.RunInfoCodec Model.FSStore Corr.Run_C04 Corr.Valid_C04
   Proofs.StrFacts Proofs.IndexFacts Proofs.MapSpecFacts Proofs.MapSpecParse Proofs.ListFacts Proofs.PlaceFacts
   Proofs.SelectFacts Proofs.MapRunFacts Proofs.RunInfoFacts Proofs.FSStoreFacts Proofs.ReloadFacts Proofs.ConsistentFacts
-  Proofs.FinishFacts.
+  Proofs.FinishFacts Proofs.SequenceFacts.
 
 (* ---------- reflexivity of the executable equalities ---------- *)
 Lemma sx_eqb_refl : forall x, sx_eqb x x = true.
@@ -88,7 +88,8 @@ Lemma reload_unfold c w :
     | Ok _, Some e => SErr e
     | Ok (li, _), None =>
         if str_eqb (c_xr c) (s "ok")
-        then match xr_dims (li_info li) with Ok d => SL [SS (s "ok"); d] | Err e => SErr e end
+        then match xr_dims (li_info li) with
+             | Ok d => SL [SS (s "ok"); d; xr_coords (c_xr_coords c) (li_inputs li)] | Err e => SErr e end
         else SL [SS (s "err"); SS (c_xr c)]
     end in
   (SL [SL outs; info; xr], w2).
@@ -166,6 +167,10 @@ Section Capstone.
   Variable c : case.
   Hypothesis Hvalid : valid_request c = true.
   Hypothesis Hstorage : storage_complete c = true.
+  (* folder re-use: whatever ran before into the same folder (and succeeded), this run uses cleanup=True *)
+  Variable w0 : world.
+  Hypothesis Hprev : run_sequence false empty_world (map case_of_request (c_prev c)) = Ok w0.
+  Hypothesis Hclean : c_cleanup c = true.
 
   Theorem model_meets_spec : spec_ok c (run c) = true.
   Proof.
@@ -182,12 +187,14 @@ Section Capstone.
     destruct (map_run_denotes sym_body sym_body_arity (c_internal c) (c_funcs c) (c_inputs c) d Hreq Hden)
       as [st' [Hrun' [Hret Hsto]]].
     assert (st' = st) by congruence. subst st'.
-    destruct (finish_parts c f Hfin Hcons) as [st2 [fl [_ [_ [_ [_ Hw]]]]]].
+    assert (Hroot0 : w_root w0 = root_name) by (exact (run_sequence_root false _ _ _ Hprev eq_refl)).
+    pose proof (last_run_clean w0 c f Hclean Hroot0 Hfin) as Hlast.
+    set (L := w_live w0 ++ w_live (f_world f)) in Hlast.
     (* the world the reloads start from *)
-    set (live := if c_fresh c then [] else flat_map snd fl).
+    set (live := if c_fresh c then [] else L).
     set (W := {| w_root := root_name; w_files := w_files (f_world f); w_live := live |}).
-    assert (HW : mutate_world MNone (if c_fresh c then reopen (f_world f) else f_world f) = W).
-    { unfold W, live. rewrite Hw. destruct (c_fresh c); reflexivity. }
+    assert (HW : mutate_world MNone (if c_fresh c then reopen (f_world (relive f L)) else f_world (relive f L)) = W).
+    { unfold W, live. destruct (c_fresh c); reflexivity. }
     (* every output loads and leaves W as it is *)
     assert (Hany : forall o, In o (output_names c) -> exists v, load_outputs version_name W o = Ok (v, W)).
     { intros o Ho. apply in_flat_map in Ho as [fn [Hfn Ho]]. exact (reload_any c f Hfin Hcons live fn o Hfn Ho). }
@@ -198,12 +205,13 @@ Section Capstone.
     set (louts := map (fun o => SL [SS o; SL [SS (s "ok"); loaded_obs W o]]) (output_names c)).
     set (info := SL [SS (s "ok"); SL [sx_run_info (f_info f); sx_inputs inputs; sx_defaults dflt]]).
     set (xr := if str_eqb (c_xr c) (s "ok")
-               then match xr_dims (f_info f) with Ok dd => SL [SS (s "ok"); dd] | Err e => SErr e end
+               then match xr_dims (f_info f) with
+                    | Ok dd => SL [SS (s "ok"); dd; xr_coords (c_xr_coords c) inputs] | Err e => SErr e end
                else SL [SS (s "err"); SS (c_xr c)]).
     assert (Hreload : reload c W = (SL [SL louts; info; xr], W)).
     { rewrite reload_unfold. rewrite (fold_reload_step W (output_names c) [] None Hany). cbn [app].
       rewrite Hri. cbv beta iota zeta. rewrite Hri. cbn [li_info li_inputs li_defaults]. reflexivity. }
-    unfold run, run_with. rewrite Hfin, Hmut, HW, Hreload, Hreload. rewrite files_eqb_refl, Hst.
+    unfold run, run_with. rewrite Hprev, Hlast, Hmut. cbn [f_state f_info relive]. rewrite HW, Hreload, Hreload. rewrite files_eqb_refl, Hst.
     rewrite !sx_eqb_refl. cbn [str_eqb Ascii.eqb Bool.eqb andb s list_ascii_of_string].
     (* (1) what the run returned is the denotation *)
     assert (E1 : sx_eqb (SL (map (fun x : str * val * val => SL [SS (fst (fst x)); sx_val (snd (fst x))]) (r_out st)))
@@ -237,7 +245,7 @@ Section Capstone.
         unfold xr_dims. rewrite Hispecs.
         rewrite (mapM_parse_prints (c_funcs c)).
         2:{ intros g ms Hg Hms. destruct (func_ok_parts g ms (Hfok g Hg) Hms) as [Hwf _]. split; [exact Hwf|eauto]. }
-        cbn [bind]. change (str_eqb (s "ok") (s "ok")) with true. cbn [andb].
+        cbn [bind]. change (str_eqb (s "ok") (s "ok")) with true. rewrite sx_eqb_refl. cbn [andb].
         apply forallb_forall. intros g Hg. destruct (fspec g) as [ms|] eqn:Hms; [|reflexivity].
         apply forallb_forall. intros a Ha.
         rewrite (sx_assoc_map_names (fun n => SL (map SS (match find (fun a0 => str_eqb (aname a0) n) (flat_map outs (spec_list (c_funcs c)))
